@@ -8,6 +8,7 @@ import (
 	"encoding/json"
 	"fmt"
 	"math/big"
+	"sort"
 	"strings"
 	"time"
 
@@ -296,6 +297,9 @@ func runCase(fx *fixture, cs c12case) string {
 			bundles = append(bundles, types.BlockBundle{Block: b, Cert: cert})
 			bundles2 = append(bundles2, types.BlockBundle{Block: b, Cert: cert})
 		}
+		// checkForkSize is specified on lists in ascending height order: the direct call gets a stably sorted COPY; the
+		// list in the order the peer delivered it goes through the real processBlocks below (order is part of the input)
+		sort.SliceStable(bundles2, func(i, j int) bool { return bundles2[i].Block.Height() < bundles2[j].Block.Height() })
 		cfs := "ok"
 		if len(bundles2) == 0 {
 			cfs = "err"
@@ -310,6 +314,8 @@ func runCase(fx *fixture, cs c12case) string {
 		return "cfs=" + cfs + " pb=" + pb
 	case "fuzz-obj":
 		return fuzzObject(fx, cs.Entry, unhex(cs.Hex))
+	case "flood":
+		return runFlood(fx, cs)
 	}
 	return "bad-section"
 }
@@ -426,6 +432,8 @@ func panicSignature(cs c12case, r result) string {
 		return "C12:validate-block-panic:" + fn
 	case "fork":
 		return "C12:fork-block-list-panic:" + fn
+	case "flood":
+		return "C12:handler-panic:newTx-flood:" + fn
 	case "msg", "fuzz-msg":
 		return "C12:handler-panic:" + fn
 	case "frame", "fuzz-frame":
